@@ -318,7 +318,7 @@ def ft6d(prog, rr):
     _ft6(prog, rr, ("dynamic_constraint_t",), False)
 
 
-@rule("FT6", ["C07"], "per-class constraint wrappers are never used to resolve per-instance behaviour; the proxy writes only the instance's block", engine="EFF", floor=6)
+@rule("FT6", ["C07", "C01"], "per-class constraint wrappers are never used to resolve per-instance behaviour; the proxy writes only the instance's block", engine="EFF", floor=6)
 def ft6(prog, rr):
     _ft6(prog, rr, ("constraint_t",), True)
 
